@@ -79,6 +79,10 @@ def _dt_norm(d):
 
 def diff(a, b, path=''):
     """First difference between two observation trees: (kind, text) or None."""
+    a_r = isinstance(a, tuple) and a and a[0] == 'raise'
+    b_r = isinstance(b, tuple) and b and b[0] == 'raise'
+    if a_r != b_r:
+        return ('raise-vs-value', '%s: %s vs %s' % (path, short(a, 100) if a_r else a[0], short(b, 100) if b_r else b[0]))
     if type(a) is not type(b):
         return ('kind', '%s: %s vs %s' % (path, short(a, 150), short(b, 150)))
     if isinstance(a, tuple) and a and isinstance(a[0], str) and a[0] in ('frame', 'series', 'ih', 'index', 'array'):
@@ -275,18 +279,25 @@ def tag_diff(case, f):
         return 'block-level-dtype-coercion-of-untouched-columns'
     # (iii) one-row frames: a size-one block is passed through unreduced when skipna=False, so a
     # reduction NumPy rejects for the dtype (sum of datetime64) raises only in a unified layout
-    if name == 'reduce' and f.kind == 'layout-raise-class' and not case['op']['args']['skipna'] \
+    if name == 'reduce' and f.kind in ('layout-raise-class', 'layout-raise-vs-value') and not case['op']['args']['skipna'] \
             and case['op']['args']['axis'] == 0 and len(case['rec']['index']['labels']) == 1:
         return 'one-row-skipna-false-reduction-skips-ufunc'
     # (iv) zero-row frames: the value or error of a reduction depends on whether NumPy is handed an
     # empty 1-D block, an empty 2-D block, or several of them
     if name == 'reduce' and len(case['rec']['index']['labels']) == 0:
         return 'zero-row-reduction-depends-on-layout'
-    if name == 'dropna' and len(case['rec']['index']['labels']) == 0 and f.kind in ('layout-shape', 'layout-labels'):
-        return 'zero-row-dropna-depends-on-layout'
+    # (viii) astype of a frame in which several columns cannot be converted: both layouts raise, but which
+    # element NumPy meets first (row-major inside a 2-D block vs column by column) decides the error class
+    if name in ('astype', 'astype_sel') and f.kind == 'layout-raise-class':
+        return 'astype-error-class-depends-on-layout'
     # (vi) sum/prod over bool columns: a multi-block frame reduces into a bool output array
     if name == 'reduce' and case['op']['args']['fn'] in ('sum', 'prod') and all(b.dtype.kind == 'b' for b in case['rec']['blocks']):
         return 'sum-prod-of-bool-multiblock-stays-bool'
+    # (vii) the output dtype of sum/prod/cumsum/cumprod over narrow integer columns follows the row dtype in a
+    # multi-block frame (int32 stays int32) but NumPy's default accumulator (int64) in a unified one
+    if name == 'reduce' and f.kind == 'layout-dtype' and case['op']['args']['fn'] in ('sum', 'prod', 'cumsum', 'cumprod') \
+            and any(b.dtype.kind in 'iub' and b.dtype.itemsize < 8 for b in case['rec']['blocks']):
+        return 'narrow-int-reduction-dtype-depends-on-layout'
     # (v) reductions over frames holding non-numeric columns (str, datetime64, timedelta64, object):
     # the row dtype and hence value type / error depends on consolidation (C15 restricts its own
     # domain to where the function is defined)
